@@ -48,6 +48,7 @@ type desc struct {
 	Fields  []fieldDesc `json:"fields,omitempty"`
 	NFun    int         `json:"nfun,omitempty"`
 	Cutoff  float64     `json:"cutoff,omitempty"`
+	NoMarch bool        `json:"no_march,omitempty"` // marching cases: only AddField vs AddFieldParallel
 	Race    bool        `json:"race,omitempty"`     // replay: execute with the -race binary
 	RaceSub bool        `json:"race_sub,omitempty"` // part of the subset executed by the -race binary in this tier
 	Report  string      `json:"report,omitempty"`   // race cases: the detector's report (informational)
@@ -257,7 +258,7 @@ func execute(d desc) wresult {
 			w = panicCase(d)
 		case "march":
 			o := runMarch(d)
-			w = wcase{Kind: "march", Coq: o.coq, Nontriv: o.tris > 0 && o.blocks >= 2}
+			w = wcase{Kind: "march", Coq: o.coq, Nontriv: (o.tris > 0 || d.NoMarch) && o.blocks >= 2}
 			if !o.marchEq || !o.canvasEq {
 				w.Note = o.detail
 			}
@@ -536,6 +537,17 @@ func buildPlan(tier string, seed uint64, n int) []desc {
 		d.RaceSub = thorough || i == 1 || i == 2 || i == 6
 		plan = append(plan, d)
 	}
+	// accumulation only, repeated on fresh canvases (cheap; the -race binary needs the chunk allocations of
+	// several workers to overlap with each other and with the dispatcher): three attributes over two blocks,
+	// one attribute over eight and over twelve unallocated blocks
+	for _, d := range []desc{
+		{Entry: "march", NFun: 3, Cutoff: surfaceOffset, NoMarch: true, Reps: 4, Fields: []fieldDesc{sphereField([3]int{85, 10, 10}, [3]int{115, 40, 40}, 21)}},
+		{Entry: "march", NFun: 1, Cutoff: surfaceOffset, NoMarch: true, Reps: 3, Fields: []fieldDesc{sphereField([3]int{85, 85, 85}, [3]int{115, 115, 115}, 21)}},
+		{Entry: "march", NFun: 1, Cutoff: surfaceOffset, NoMarch: true, Reps: 2, Fields: []fieldDesc{sphereField([3]int{-20, 90, 90}, [3]int{110, 110, 110}, 21)}},
+	} {
+		d.RaceSub = true
+		plan = append(plan, d)
+	}
 	if thorough {
 		for k := 0; k < 24; k++ {
 			d := randomMarch(r)
@@ -776,9 +788,10 @@ func main() {
 		return
 	}
 	self, _ := os.Executable()
-	deadline := 6 * time.Minute
+	// generous: a kill is attributed to the running case, so it must only happen on a real hang
+	deadline := 25 * time.Minute
 	if run.Tier == "thorough" {
-		deadline = 25 * time.Minute
+		deadline = 50 * time.Minute
 	}
 
 	// replay / corpus inputs: single descriptions
